@@ -16,7 +16,7 @@ BUDGET = {"quick": (8, 90), "thorough": (16, 3000)}
 RULE = ("Generated grid configurations: class in {Uniform, Geometric(growth 1/1.5/2/4, local/global), Function(power rule), Density(a+b tau), DenseEdges, Free} x localize_t0 x localize_T x "
         "min/max in {default, value} x N 1..8 x M 1..4 x t0/T each fixed | FreeTime | parameter x method SS|MS|DC. The grid's own (linear) NLP rows are solved for the local time "
         "variables at chosen horizon values; oracles: rows consistent, unique solution for fixed-pattern grids, control grid == t0 + T * closed-form normalised locations "
-        "(CDF inversion for densities), integrator grid = M equal sub-steps, sampled t / DT / DT_control agree, min/max satisfied <=> the grid's inequality rows are satisfied. "
+        "(CDF inversion for densities), integrator grid = M equal sub-steps, sampled t (control, integrator, refined, collocation roots = step start + tau_j x step length) / DT / DT_control agree, min/max satisfied <=> the grid's inequality rows are satisfied. "
         "Non-trivial = anything but (UniformGrid, fixed horizon, N>=2, M=1, no localisation, no bounds); distinct = SHA-1 of the case JSON.")
 ASSUMPTIONS = ["time rows are recognised as the NLP rows that do not depend on state/control variables", "grid constraints are linear in the time variables (verified per case at two points)"]
 
@@ -143,6 +143,8 @@ def check(case, ctx):
             probes["t_refined"], probes["t_refined_val"] = ocp.sample(ocp.t, grid="integrator", refine=r)
         except Exception:
             r = None
+    if m["cls"] == "DC":
+        probes["t_roots"], probes["t_roots_val"] = ocp.sample(ocp.t, grid="integrator_roots")
     nlp.add_all(probes)
     fails = []
     # classify decision variables
@@ -244,6 +246,15 @@ def check(case, ctx):
     want_dtc_int = np.concatenate([np.repeat(dtc, M), dtc[-1:]])
     if not close(res["DTc@integrator"].reshape(-1), want_dtc_int, 1e-10, 1e-11) or not close(res["DT@integrator"].reshape(-1), want_dtc_int / M, 1e-10, 1e-11):
         fails.append(Fail("DT-on-integrator-grid", feats, {"DT": res["DT@integrator"].reshape(-1), "DT_control": res["DTc@integrator"].reshape(-1), "reference_DT_control": want_dtc_int}))
+    if "t_roots" in res:
+        # collocation times: every integrator step carries its own points t_step + tau_j * (length of that step)
+        tau = ref.Colloc(m["degree"], m["scheme"]).tau
+        want_roots = np.concatenate([ti[j] + (ti[j + 1] - ti[j]) * tau for j in range(N * M)])
+        tr_ = res["t_roots"].reshape(-1)
+        if not close(tr_, want_roots, 1e-10, 1e-11):
+            fails.append(Fail("root-times", feats, {"sampled": tr_, "reference": want_roots}))
+        elif not close(res["t_roots_val"].reshape(-1), tr_, 1e-12, 1e-12):
+            fails.append(Fail("sampled-t-roots", feats, {"sample(t)": res["t_roots_val"].reshape(-1), "time_vector": tr_}))
     if "t_refined" in res:
         r = 3
         tr_ = res["t_refined"].reshape(-1)
